@@ -106,6 +106,14 @@ check("C20", "exploration",
       "Trusts the guard model and M-protocol; 'reset once' is judged as 'at least once before the first row, never later'.",
       "call-log monitor at the plugin boundary vs protocol model (trace specification)", "DESIGN.md 5/C20")
 
+check("C18", "exploration",
+      "The argv shapes the property names (CID valid / rejected / missing in four suffixes x every ordered list of 0-3 data "
+      "files over nine file kinds x --until values, for delimited, fixed, ODS and XLSX data, plus an injected EIO in the middle "
+      "of a file) are enumerated and run in-process through applications.main and, sampled, as real subprocesses; the observed "
+      "exit code is compared with the documented table, per-file verdicts coming from cutplace.validate on a fresh CID.",
+      "Relational to the programmatic API; rejected+unreadable in one invocation is unjudged.",
+      "enumerated executions of the command line vs exit-code table relational to the API + I/O failpoint", "DESIGN.md 5/C18")
+
 NOT_YET = "check not built yet in this session; see DESIGN.md section 5 for the planned monitor"
 
 def main():
